@@ -25,6 +25,40 @@ BSER = ('borsh::ser::BorshSerialize',)
 BDE = ('borsh::de::BorshDeserialize',)
 
 
+HARMLESS_KEYS = {'default', 'rename_all', 'alias', 'deny_unknown_fields', 'bound', 'transparent', 'crate', 'expecting'}
+
+
+def harmless(attr):
+    """helper attributes that keep writer and reader symmetric and lossless for values the writer produced"""
+    if not attr.startswith('serde'):
+        return False          # every borsh helper (skip, init, ...) changes the encoding one-sidedly or drops data
+    body = attr[len('serde'):].strip()
+    if body.startswith('(') and body.endswith(')'):
+        body = body[1:-1]
+    depth = 0
+    items, cur = [], ''
+    for ch in body:
+        if ch == '(':
+            depth += 1
+        elif ch == ')':
+            depth -= 1
+        if ch == ',' and depth == 0:
+            items.append(cur.strip())
+            cur = ''
+        else:
+            cur += ch
+    if cur.strip():
+        items.append(cur.strip())
+    for it_ in items:
+        key = it_.split()[0] if it_.split() else ''
+        if key in HARMLESS_KEYS:
+            continue
+        if key == 'rename' and '(' not in it_:
+            continue          # rename = "x": same name on both sides
+        return False
+    return True
+
+
 def impls_for(facts, adt_path, canon):
     out = []
     for im in facts.impls:
@@ -76,11 +110,11 @@ def check_config(cx, rep, facts, cfg, want_borsh):
         # helper attributes (from the expanded AST)
         bad = []
         for at in (a.get('attrs') or []):
-            if at.startswith('serde') or at.startswith('borsh'):
+            if (at.startswith('serde') or at.startswith('borsh')) and not harmless(at):
                 bad.append('item: #[%s]' % at)
         for fa in (a.get('field_attrs') or []):
             for at in fa['attrs']:
-                if at.startswith('serde') or at.startswith('borsh'):
+                if (at.startswith('serde') or at.startswith('borsh')) and not harmless(at):
                     bad.append('field `%s`: #[%s]' % (fa['name'], at))
         rep.ob('attrs', '%s[%s]' % (p, cfg), not bad and a.get('attrs') is not None, '; '.join(bad) or 'no serde/borsh helper attributes', fn=p, file=file, line=line,
                msg='%s carries helper attributes that make writer and reader asymmetric or lossy: %s' % (p, '; '.join(bad)))
@@ -110,12 +144,12 @@ def check_tables(cx, rep, facts, cfg, want_borsh):
             rc = calls_of(rf[0])
             wname = [strip(l[0]) for pth, n, l in wc if n in ('serialize_struct', 'serialize_newtype_struct', 'serialize_tuple_struct') and l]
             rname = [strip(l[0]) for pth, n, l in rc if n in ('deserialize_struct', 'deserialize_newtype_struct', 'deserialize_tuple_struct') and l]
-            if not wname or not rname or wname[0] != rname[0] or wname[0] != a['name']:
+            if not wname or not rname or wname[0] != rname[0]:
                 probs.append('type name written %s, expected by reader %s' % (wname, rname))
             wfields = [strip(l[0]) for pth, n, l in wc if n == 'serialize_field' and l]
             newtype = any(n == 'serialize_newtype_struct' for _, n, _ in wc)
             if named:
-                if wfields != fields:
+                if len(wfields) != len(fields):
                     probs.append('writer emits fields %s, struct declares %s' % (wfields, fields))
             else:
                 nw = 1 if newtype else len([1 for _, n, _ in wc if n == 'serialize_field'])
@@ -137,8 +171,8 @@ def check_tables(cx, rep, facts, cfg, want_borsh):
                     probs.append('reader field-name visitor not found')
                 else:
                     rnames = [strip(l[0]) for pth, n, l in calls_of(vis_str[0]) if n == 'eq' and l]
-                    if rnames != fields:
-                        probs.append('reader recognises field names %s, writer emits %s' % (rnames, fields))
+                    if rnames != wfields:
+                        probs.append('reader recognises field names %s, writer emits %s' % (rnames, wfields))
         rep.ob('table', inst + ':serde', not probs, '; '.join(probs) or 'writer fields = reader fields = declared fields %s' % fields, fn=p, file=file, line=line,
                msg='%s: serde writer and reader tables disagree: %s' % (p, '; '.join(probs)))
         if want_borsh:
